@@ -68,6 +68,7 @@ CMP = {'lt': lambda a, b: a < b, 'le': lambda a, b: a <= b, 'gt': lambda a, b: a
 BINCMP = {'Lt': 'lt', 'Le': 'le', 'Gt': 'gt', 'Ge': 'ge', 'Eq': 'eq', 'Ne': 'ne'}
 
 IDENTITY_CALLS = re.compile(
+    r'(^|::)(Borrow|BorrowMut|AsRef|Into|From|Deref|DerefMut)::(borrow|borrow_mut|as_ref|into|from|deref|deref_mut)$|'
     r'(Deref|DerefMut)>::deref(_mut)?$|Borrow<.*>>::borrow$|BorrowMut<.*>>::borrow_mut$|RefCell::<.*>::borrow(_mut)?$|'
     r'AsRef<.*>>::as_ref$|Into<.*>>::into$|From<.*>>::from$|String::as_str$|Option::<.*>::as_ref$|'
     r'IntoIterator>::into_iter$|Rc::<.*>::new$|RefCell::<.*>::new$|Cell::<.*>::new$|Box::<.*>::new$|Option::<.*>::as_deref$')
@@ -85,6 +86,49 @@ class Machine:
         self.trace = []
         self.heap_n = 0
         self.events = []
+        self.fid = 0                 # frame id: 0 is the function the rule walks; callees entered with invoke() get their own
+        self.shared = {'frames': 0}
+        self.depth = 0
+        self.enter = None            # predicate(path) -> bool: crate-local callees to walk into instead of treating them as opaque
+
+    def k(self, local):
+        """environment key of a MIR local of the current frame"""
+        return local if self.fid == 0 else (self.fid, local)
+
+    def invoke(self, body, argvals):
+        """walk a crate-local callee (or closure body) on the given argument values and hand back what it returns; the
+        environment is shared, so pointers into the caller stay valid"""
+        if self.depth > 10:
+            raise Unknown('call depth')
+        sub = Machine(body, self.model, max_steps=self.max_steps)
+        sub.env = self.env
+        sub.events = self.events
+        sub.shared = self.shared
+        self.shared['frames'] += 1
+        sub.fid = self.shared['frames']
+        sub.depth = self.depth + 1
+        sub.enter = self.enter
+        sub.ctrl_tags = getattr(self, 'ctrl_tags', frozenset())
+        for i, v in enumerate(argvals, 1):
+            sub.env[sub.k(i)] = v
+        why = sub.run(0)
+        if why != 'return':
+            raise Unknown('%s ended with %s' % (body.path.rsplit('::', 1)[-1], why))
+        self.ctrl_tags = getattr(sub, 'ctrl_tags', frozenset())
+        return sub.load(sub.k(0))
+
+    def apply_fn(self, f, params):
+        """call a function value (closure aggregate or fn item) on parameter values; None when it is not a known crate-local body"""
+        fv = self.deref_value(f)
+        if isinstance(fv, dict) and str(fv.get('__adt__', '')).startswith('closure:'):
+            body = self.b.facts.bodies.get(fv['__adt__'][8:])
+            if body is not None:
+                return self.invoke(body, [f if is_ptr(f) else fv] + list(params))
+        if is_sym(fv) and fv[1].startswith('fn:'):
+            body = self.b.facts.bodies.get(fv[1][3:])
+            if body is not None and body.argc == len(params):
+                return self.invoke(body, list(params))
+        return None
 
     # ------------------------------------------------------------------ values
     def alloc(self, v, name=None):
@@ -96,9 +140,9 @@ class Machine:
     def load(self, local):
         if local in self.env:
             return self.env[local]
-        if isinstance(local, int) and 1 <= local <= self.b.argc:
+        if isinstance(local, int) and self.fid == 0 and 1 <= local <= self.b.argc:
             return sym('arg:%s' % self.b.arg_names.get(local))
-        return sym('undef:_%s' % local)
+        return sym('undef:_%s' % (local,))
 
     def proj_read(self, v, pe):
         if pe == 'deref':
@@ -187,7 +231,7 @@ class Machine:
         p = opplace(o)
         if p is None:
             raise Unknown('operand')
-        return self.read(p['local'], p['proj'])
+        return self.read(self.k(p['local']), p['proj'])
 
     def deref_value(self, v, depth=0):
         """the value behind any number of references"""
@@ -208,7 +252,10 @@ class Machine:
         if adt == 'array':
             return ('tuple', list(vals))
         if adt.startswith('closure:'):
-            return {'__adt__': adt, '__caps__': list(vals)}
+            d = {'__adt__': adt, '__caps__': list(vals)}
+            for i, v in enumerate(vals):
+                d[str(i)] = v
+            return d
         d = {'__adt__': adt.rsplit('::', 1)[0], '__variant__': adt.rsplit('::', 1)[1]}
         tail = '::'.join(adt.split('::')[-2:])
         if tail in STD_DISCR:
@@ -282,7 +329,7 @@ class Machine:
         if rv in ('ref', 'rawptr'):
             p = opplace(ops[0])
             # a reference to (*ptr).f is the pointer's target plus the projection
-            local, pre = p['local'], []
+            local, pre = self.k(p['local']), []
             for pe in p['proj']:
                 cur = self.read(local, pre)
                 if is_ptr(cur) and (pe == 'deref' or (isinstance(pe, dict) and 'field' in pe)):
@@ -310,7 +357,7 @@ class Machine:
             return self.operand(ops[0])
         if rv == 'discr':
             p = opplace(ops[0])
-            return self.discr_of(self.read(p['local'], p['proj']))
+            return self.discr_of(self.read(self.k(p['local']), p['proj']))
         if rv == 'aggr':
             return self.make_adt(s['adt'], [self.operand(o) for o in ops], s.get('fields', []))
         if rv == 'repeat':
@@ -325,6 +372,10 @@ class Machine:
             r = self.model(self, path, args, t)
             if r is not NotImplemented:
                 return r
+        if self.enter is not None and c and path in self.b.facts.bodies and self.enter(path):
+            callee = self.b.facts.bodies[path]
+            if callee.argc == len(args):
+                return self.invoke(callee, args)
         return self.std_call(path, args, t)
 
     def std_call(self, path, args, t):
@@ -343,6 +394,9 @@ class Machine:
                 self.check_const_compare(a, b)
                 return int(CMP[m.group(1)](a, b))
             raise Unknown('%s of %r, %r' % (m.group(1), a, b))
+        m = re.search(r'ops::(?:arith::)?(Add|Sub|Mul|Div|Rem)(?:<[^>]*>)?>::(add|sub|mul|div|rem)$', path)
+        if m and len(args) == 2:
+            return self.binop(m.group(1), args[0], args[1])
         m = re.search(r'cmp::Ord>::(max|min)$|::(max|min)$', path)
         if m and len(args) == 2 and re.search(r'cmp::', path):
             a, b = self.deref_value(args[0]), self.deref_value(args[1])
@@ -388,7 +442,7 @@ class Machine:
             self.trace.append(cur)
             for s in bl['stmts']:
                 if s['k'] == 'assign':
-                    self.write(s['lhs']['local'], s['lhs']['proj'], self.rvalue(s))
+                    self.write(self.k(s['lhs']['local']), s['lhs']['proj'], self.rvalue(s))
                 elif s['k'] == 'setdiscr':
                     raise Unknown('SetDiscriminant')
             t = bl['term']
@@ -396,7 +450,7 @@ class Machine:
             if k == 'call':
                 path = t['callee']['path'] if t.get('callee') else '<indirect>'
                 r = self.call(t)
-                self.write(t['dest']['local'], t['dest']['proj'], r)
+                self.write(self.k(t['dest']['local']), t['dest']['proj'], r)
                 if on_call is not None and on_call(self, path, [self.operand(a) if 'const' in a else None for a in t['args']], t):
                     return 'call'
                 if t.get('target', -1) is None or t.get('target', -1) < 0:
